@@ -777,6 +777,11 @@ func (m *MutableOverlayWorld) FindReferences(id b6.FeatureID, typed ...b6.Featur
 
 	baseReferences := m.base.FindReferences(id) // Not limiting by type in base search.
 	for baseReferences.Next() {
+		if m.features.HasFeatureWithID(baseReferences.FeatureID()) {
+			// The base's version of this feature has been replaced, and what
+			// the replacement references is recorded in m.references.
+			continue
+		}
 		references[baseReferences.FeatureID()] = true
 		for _, reference := range m.references.FindReferences(baseReferences.FeatureID(), typed...) {
 			references[reference.Source()] = true
